@@ -302,6 +302,29 @@ def check_map_construction(entries):
                     out.append(("C12:map-update-ignored", "map built from %s: (%d,%d) was %r, add_type(...%r) again leaves "
                                 "get_type = %r" % (name, s0, i0, t0, t_new, q)))
                     break
+        # what get_type() says and what .mapping shows are the same information at every moment: the same pair is
+        # looked up, the entry is changed through the live .mapping dict (or through the dict given as initial=),
+        # and looked up again with nothing in between
+        s9, i9, t9 = entries[-1]
+        live = DeviceInstanceTypeMapper(initial={(s9, i9): t9, (63 - s9, 31 - i9): 2})
+        for step, new_t in enumerate([(t9 + 5) % 32, None, (t9 + 9) % 32]):
+            before_q = live.get_type(short_address=s9, instance_number=i9)
+            if new_t is None:
+                live.mapping.pop((s9, i9), None)
+            else:
+                live.mapping[(s9, i9)] = new_t
+            q = live.get_type(short_address=s9, instance_number=i9)
+            if q != live.mapping.get((s9, i9)) or q != new_t:
+                out.append(("C12:get_type-disagrees-with-mapping", "after .mapping[(%d,%d)] was set to %r (lookup just before: %r) "
+                            "get_type gives %r while .mapping shows %r" % (s9, i9, new_t, before_q, q, live.mapping.get((s9, i9)))))
+                break
+            from dali import command as _c2, frame as _f2
+            ev = _c2.from_frame(_f2.ForwardFrame(24, (s9 << 17) | 0x8000 | (i9 << 10) | 3), dev_inst_map=live)
+            want_cls = "AmbiguousInstanceType" if new_t is None else ref_decode((s9 << 17) | 0x8000 | (i9 << 10) | 3, new_t)["cls"]
+            if type(ev).__name__ != want_cls:
+                out.append(("C12:get_type-disagrees-with-mapping", "after .mapping[(%d,%d)] was set to %r the frame decodes as %s, "
+                            "expected %s" % (s9, i9, new_t, type(ev).__name__, want_cls)))
+                break
         # two mappers preset from ONE dict of the caller's; clearing one concerns neither the other nor the dict
         shared = dict(ref)
         m1 = DeviceInstanceTypeMapper(initial=shared)
